@@ -6,7 +6,7 @@ from ..runner import run_coexec, replay_coexec
 
 MODULE = "Props.C08"
 THEOREMS = ["C08_call_records", "C08_history_records", "C08_recorded_errors_fail",
-            "C08_message_has_every_error", "C08_nonvacuous"]
+            "C08_message_has_every_error", "C08_errors_recorded_during_teardown_are_reported", "C08_teardown_nonvacuous", "C08_nonvacuous"]
 
 RULE = ("histories in which mock-induced panics of every kind (no implementation, no matching pattern, wrong order / out of range / inputs not "
         "matched, single-use value requested twice, explicit panics(), missing real function, missing default body, pattern without matcher / "
@@ -49,11 +49,36 @@ def gen_case(rng):
                 e = dict(e); e["other"] = True
         evs.append(e)
     c["events"] = evs
+    if rng.random() < 0.2:
+        # values whose Drop calls the mock are lent through some instance: their calls happen when that instance's value chain is released
+        for _ in range(rng.randint(1, 2)):
+            evs.insert(rng.randint(0, max(0, len(evs) - 1)),
+                       {"base": ("lendcall", rng.choice([0, 0, 1]), rng.choice(mids + [1, 3]), rng.randrange(8))})
     return c
 
 
+def teardown_case(rng):
+    """errors recorded WHILE the original is torn down: a history without errors, a lent value whose Drop makes a failing call (swallowed)
+    through the clone it owns, then drop / verify() of the original (sometimes a clone lends, and is dropped before)"""
+    mids = rng.sample([0, 1, 2, 4], rng.randint(1, 2))
+    terms = [{"kind": "call", "mid": m, "opener": "each", "pat": {"matcher": 15, "dbg": k + 1, "ops": [("ans", k + 1)]}} for k, m in enumerate(mids)]
+    ok_call = lambda i: {"base": ("call", i, rng.choice(mids), rng.randrange(4))}
+    bad = rng.choice([(rng.choice(mids), rng.choice([4, 5, 6])), (rng.choice([x for x in (0, 1, 3, 5) if x not in mids]), 0)])
+    evs = [ok_call(0) for _ in range(rng.randint(0, 2))]
+    via_clone = rng.random() < 0.3
+    if via_clone:
+        evs += [{"base": ("clone", 0)}, {"base": ("lendcall", 1) + bad}, ok_call(1), {"base": ("drop", 1)}]
+    else:
+        evs += [{"base": ("lendcall", 0) + bad}] + [ok_call(0) for _ in range(rng.randint(0, 1))]
+        if rng.random() < 0.3:
+            evs += [{"base": ("lendcall", 0, rng.choice(mids), rng.randrange(8))}]
+    evs += [{"base": (rng.choice(["drop", "verify"]), 0)}]
+    return {"partial": False, "terms": terms, "events": evs}
+
+
 def gen_cases(rng, tier):
-    return [gen_case(rng) for _ in range(800 if tier == "quick" else 8000)]
+    n = 800 if tier == "quick" else 8000
+    return [gen_case(rng) for _ in range(n)] + [teardown_case(rng) for _ in range(n // 10)]
 
 
 def nontrivial(case):
